@@ -62,7 +62,7 @@ def required_counters(tier):
         "modules.without_import": 1,
         "dynamic.runs": 100,
         "dynamic.tracebacks_compared": 20,
-        "generated.modules": 300,
+        "generated.modules": 300, "cells.through_one_transformer": 100, "compiled_code_decorator_counts_compared": 800,
     }
 
 
@@ -123,6 +123,22 @@ def code_table(code):
     return sorted(out)
 
 
+def count_jaxtyped_loads(code):
+    """number of `.jaxtyped` attribute loads in a code object tree: each added decorator contributes one.
+    Observed on the loader's OUTPUT, so it does not depend on seeing the transformed tree."""
+    import dis
+
+    n = 0
+    stack = [code]
+    while stack:
+        c = stack.pop()
+        for ins in dis.get_instructions(c):
+            if ins.opname in ("LOAD_ATTR", "LOAD_METHOD") and ins.argval == "jaxtyped":
+                n += 1
+        stack.extend(k for k in c.co_consts if hasattr(k, "co_code"))
+    return n
+
+
 def is_hook_decorator(node, hash_):
     """jaxtyping.jaxtyped(typechecker=jaxtyping._import_hook.Typechecker.lookup['<hash>'])"""
     try:
@@ -163,10 +179,20 @@ def validate(rec, source, path, tc_string, label):
         except BaseException as e:  # noqa
             rec.violation("compile", case, f"{label}: original compiles but the hooked compilation raised {type(e).__name__}: {str(e)[:200]}", mechanism="transformed-does-not-compile-" + type(e).__name__)
             return False
+    on = sum(isinstance(n, ast.FunctionDef) for n in ast.walk(orig_tree))
+    oc = sum(isinstance(n, ast.ClassDef) for n in ast.walk(orig_tree))
+    added = count_jaxtyped_loads(new_code) - count_jaxtyped_loads(orig_code)
+    rec.count("compiled_code_decorator_counts_compared")
+    if added != on + oc:
+        rec.violation("decorator-count", case, f"{label}: {on} defs + {oc} classes in the source but the code object the loader produced evaluates {added} added jaxtyped decorators", mechanism="compiled-code-misses-decorators" if added < on + oc else "compiled-code-has-extra-decorators")
+        return False
     trees = [t for t in cap.trees if isinstance(t, ast.Module)]
     if not trees:
-        rec.inconclusive.append("loader capture point gone: no transformed tree observed")
-        return None
+        rec.count("capture_point_missing")  # white-box tree comparison impossible; the code-level oracles above/below decide
+        if code_table(new_code) != code_table(orig_code):
+            rec.violation("code-table", case, f"{label}: compiled code objects differ", mechanism="code-table-differs")
+            return False
+        return True
     T = trees[-1]
     hash_ = tc.get_hash()
     rec.count("modules.validated")
@@ -239,8 +265,6 @@ def validate(rec, source, path, tc_string, label):
         rec.violation("tree-differs", case, f"{label}: after removing the additions the tree differs from the original near: ...{orig_dump[max(0, i - 80):i + 80]}... vs ...{new_dump[max(0, i - 80):i + 80]}...", mechanism="tree-differs-beyond-additions")
         return False
     # counts against the original
-    on = sum(isinstance(n, ast.FunctionDef) for n in ast.walk(orig_tree))
-    oc = sum(isinstance(n, ast.ClassDef) for n in ast.walk(orig_tree))
     if (on, oc) != (nfun, ncls):
         rec.violation("counts", case, f"{label}: {on} defs / {oc} classes in the original, {nfun}/{ncls} decorated", mechanism="count-mismatch")
         return False
@@ -256,6 +280,42 @@ def validate(rec, source, path, tc_string, label):
         rec.violation("docstring", case, f"{label}: module docstring changed", mechanism="docstring-lost")
         return False
     return True
+
+
+def validate_reused_transformer(rec, sources, tc_string):
+    """IPython keeps ONE JaxtypingTransformer in shell.ast_transformers and calls .visit() on every cell:
+    each cell must get the complete set of additions, whatever was transformed before"""
+    from jaxtyping import _import_hook as H
+
+    try:
+        tr = H.JaxtypingTransformer(typechecker=H.Typechecker(tc_string))
+    except Exception:
+        return
+    for ci, src in enumerate(sources):
+        try:
+            orig = ast.parse(src)
+            compile(orig, "<cell>", "exec", dont_inherit=True)
+        except (SyntaxError, ValueError):
+            continue
+        T = tr.visit(ast.parse(src))
+        ast.fix_missing_locations(T)
+        rec.count("cells.through_one_transformer")
+        rec.case(("cell", ci, src), True)
+        case = {"cell_index": ci, "source": src[:1500], "typechecker": tc_string}
+        ndefs = sum(isinstance(n, (ast.FunctionDef, ast.ClassDef)) for n in ast.walk(orig))
+        body = T.body
+        k = 0
+        while k < len(body) and ((isinstance(body[k], ast.ImportFrom) and body[k].module == "__future__") or (isinstance(body[k], ast.Expr) and isinstance(body[k].value, ast.Constant))):
+            k += 1
+        has_import = k < len(body) and isinstance(body[k], ast.Import) and body[k].names[0].name == "jaxtyping"
+        if ndefs and not has_import:
+            rec.violation("additions", case, f"cell #{ci} run through an already-used transformer: {ndefs} definitions decorated but no `import jaxtyping` inserted", mechanism="reused-transformer-omits-import")
+            return
+        try:
+            compile(T, "<cell>", "exec", dont_inherit=True)
+        except Exception as e:  # noqa
+            rec.violation("compile", case, f"cell #{ci}: transformed cell does not compile: {type(e).__name__}: {e}", mechanism="reused-transformer-cell-does-not-compile")
+            return
 
 
 # ------------------------------------------------------------------------------ dynamic arm
@@ -373,6 +433,9 @@ def run_shard(rec, seed, shard, tier):
             rec.count("generated.not_compiling_skipped")  # precondition of the property: the original compiles
         else:
             rec.count("generated.modules")
+    for k in range(max(2, GENERATED[tier] // 8)):
+        g = random.Random(f"{seed}/C10/{shard['i']}/cells{k}")
+        validate_reused_transformer(rec, [GM.gen_static_module(g) for _ in range(3)], tcs[k % 2])
     scratch = tempfile.mkdtemp(prefix="jtv_c10_")
     try:
         with open(os.path.join(scratch, "jtv_c10_spy.py"), "w") as f:
